@@ -115,7 +115,7 @@ type c02Case struct {
 	Now  string `json:"now,omitempty"`
 }
 
-const c02Chunk = 20000
+const c02Chunk = 2000
 
 // F3 (--now): record dates relative to the clock x open-range starts x clock readings
 var c02NowDays = []int{0, -1, -2, 1}
